@@ -181,7 +181,14 @@ fn probe_corpus(rep: &mut Report) {
                 let out = comp::eval(&prog, &[]);
                 let canon = out.canonical();
                 // `ok (li bo (bo 1) (bo 1) …)`
-                let falses: Vec<usize> = canon.match_indices("(bo ").enumerate().filter(|(_, (i, _))| canon[*i..].starts_with("(bo 0)")).map(|(k, _)| k).collect();
+                // a List<Bool> comes back as a list of Data constructors: `(li da (da (C 1)) (da (C 0)) …)` (1 = True)
+                let mut marks: Vec<(usize, bool)> = canon.match_indices("(C ").map(|(i, _)| (i, canon[i + 3..].starts_with('1'))).collect();
+                marks.extend(canon.match_indices("(bo ").map(|(i, _)| (i, canon[i + 4..].starts_with('1'))));
+                marks.sort();
+                let falses: Vec<usize> = marks.iter().enumerate().filter(|(_, (_, t))| !*t).map(|(k, _)| k).collect();
+                if marks.is_empty() {
+                    rep.fail(&format!("c01:probe-corpus:{}:{}:{}:shape", name, s.0, which), "the probe list of a corpus module did not evaluate to a list of Bool", json!({"file": name}), json!({"outcome": canon.chars().take(300).collect::<String>()}));
+                }
                 if !canon.starts_with("ok") || !falses.is_empty() {
                     rep.fail(
                         &format!("c01:probe-corpus:{}:{}:{}", name, s.0, which),
